@@ -194,6 +194,35 @@ theorem C04_nak_progress_resets (env : Dest.Env) (d : Dest.DestSt) (t : Timer)
       .ok () { d with p := { d.p with nakCounter := 0, procTimer := some ⟨env.now, t.timeout⟩ } } := by
   msimp [Dest.resetNakActivityParameters, Dest.getP, ht, Dest.modP, Timer.reset]
 
+/-- the arrival of the re-requested Metadata PDU is progress: whatever the Metadata handling did
+(`d1`), when the deferred procedure is still active afterwards the NAK activity counter is back to
+zero and the NAK timer restarted from now — and nothing is queued by this step. -/
+theorem C04_metadata_arrival_is_progress (env : Dest.Env) (d d1 : Dest.DestSt) (t : Timer)
+    (h : Hdr) (closure : Bool) (cks size : Nat) (sname dname : String) (msgs : List Msg)
+    (hmd : Dest.handleMetadataPacket h closure cks size sname dname msgs d = .ok () d1)
+    (ha : d1.p.deferredActive = true) (ht : d1.p.procTimer = some t) :
+    Dest.handleWaitingForMissingMetadata env (some (.md h closure cks size sname dname msgs)) d =
+      .ok () { d1 with
+        p := { d1.p with nakCounter := 0, procTimer := some ⟨env.now, t.timeout⟩ },
+        step := if d1.step = .RECEIVING_FILE_DATA then .WAITING_FOR_MISSING_DATA else d1.step } := by
+  by_cases hs : d1.step = .RECEIVING_FILE_DATA <;>
+  msimp [Dest.handleWaitingForMissingMetadata, hmd, Dest.getP, ha, ht, Dest.resetNakActivityParameters,
+    Dest.modP, Timer.reset, hs]
+
+/-- … and the deferred procedure, run later in the same call, issues no NAK sequence: the timer was
+just restarted (interval `> 0`), so this call is "before the expiry" (`C04_nak_no_early_expiry`). -/
+theorem C04_metadata_arrival_issues_nothing (env : Dest.Env) (d1 : Dest.DestSt) (t : Timer) (rc : RemoteCfg)
+    (fse : Nat) (st : Dest.DStep)
+    (ha : d1.p.deferredActive = true) (hnc : d1.p.canceled = false) (hrc : d1.p.remoteCfg = some rc)
+    (hf : d1.p.fileSizeEof = some fse) (hmiss : d1.p.trk ≠ [] ∨ d1.p.metadataMissing = true)
+    (hpos : 0 < t.timeout) :
+    let d2 : Dest.DestSt := { d1 with
+        p := { d1.p with nakCounter := 0, procTimer := some ⟨env.now, t.timeout⟩ }, step := st }
+    Dest.deferredLostSegmentHandling env d2 = .ok () d2 := by
+  intro d2
+  exact C04_nak_no_early_expiry env d2 ⟨env.now, t.timeout⟩ rc fse ha hnc hrc hf hmiss rfl
+    (by simp [Timer.timedOut]; omega)
+
 /-! ### "exactly at the N-th consecutive expiry" -/
 
 /-- A counter that starts at `c`, grows by one at every expiry below the limit and triggers the
